@@ -129,6 +129,9 @@ func (x *FnExec) staticCall(fr *frame, n *node, in ssa.Instruction, callee *ssa.
 		x.trusted["library model: "+lm.name] = true
 		return lm.apply(x, fr, n, in, c, args, reach, hint)
 	}
+	if r, ok := x.deepCopyModel(fr, n, in, callee, args, reach, hint, resT); ok {
+		return r, nil
+	}
 	inlineOK := callee.Parent() != nil || (spec != nil && spec.Inline)
 	if inlineOK && x.eng.isRepoFunc(callee) && fr.depth < x.depthLimit {
 		x.eng.ensureBuilt(callee)
@@ -598,3 +601,59 @@ func (x *FnExec) constLen(v ssa.Value) (int64, bool) {
 }
 
 var _ = token.NoPos
+
+// hasRefs: does a value of this type contain references (pointers, slices, maps, interfaces, channels, funcs)?
+func hasRefs(t types.Type, depth int) bool {
+	if depth > 6 {
+		return true
+	}
+	switch u := t.Underlying().(type) {
+	case *types.Basic:
+		return u.Kind() == types.UnsafePointer
+	case *types.Struct:
+		for i := 0; i < u.NumFields(); i++ {
+			if hasRefs(u.Field(i).Type(), depth+1) {
+				return true
+			}
+		}
+		return false
+	case *types.Array:
+		return hasRefs(u.Elem(), depth+1)
+	}
+	return true
+}
+
+// deepCopyModel: generated `func (in *T) DeepCopy() *T`: nil for nil; otherwise a fresh object whose reference-free
+// fields equal the original's and whose reference-carrying fields are arbitrary (fresh copies in reality). Nothing
+// that existed before is written.
+func (x *FnExec) deepCopyModel(fr *frame, n *node, in ssa.Instruction, callee *ssa.Function, args []Val, reach, hint string, resT types.Type) (Val, bool) {
+	if callee.Name() != "DeepCopy" || callee.Signature.Recv() == nil || len(args) != 1 {
+		return Val{}, false
+	}
+	pt, ok := callee.Signature.Recv().Type().Underlying().(*types.Pointer)
+	if !ok || callee.Signature.Results().Len() != 1 || !types.Identical(callee.Signature.Results().At(0).Type(), callee.Signature.Recv().Type()) {
+		return Val{}, false
+	}
+	stt, ok := pt.Elem().Underlying().(*types.Struct)
+	if !ok {
+		return Val{}, false
+	}
+	st := n.st
+	src := x.scalar(args[0])
+	r := x.freshRef(st, "deepcopy", reach)
+	for i := 0; i < stt.NumFields(); i++ {
+		hn, hs, ft := x.fieldHeap(pt.Elem(), i)
+		h := x.heapGet(st, hn, hs)
+		var v string
+		if hasRefs(ft, 0) {
+			hv := x.havocVal(hint+"_"+stt.Field(i).Name(), ft, reach)
+			v = hv.S
+		} else {
+			v = sel(h, src)
+		}
+		x.heapSet(st, hn, hs, sto(h, r, v))
+	}
+	x.trusted["generated DeepCopy: fresh object; reference-free fields copied, reference-carrying fields arbitrary; no existing object written"] = true
+	res := x.q.define(hint, "Ref", ite(eq(src, "nil"), "nil", r))
+	return Val{S: res, T: resT}, true
+}
